@@ -151,6 +151,8 @@ template <unsigned n, class E> void c_spline_additive(E& e) {
   Spline<n, E> t(e);
   if (!t.built) return;
   const T a = e.var("a"), b = e.var("b"), c = e.var("c");
+  // sorted bounds only: the other orders follow from antisymmetry (contract `integral`)
+  e.require(e.le(a, b) && e.le(b, c));
   e.ensure("additive: I(a,b) + I(b,c) = I(a,c)", e.eq(t.s.computeIntegral(a, b) + t.s.computeIntegral(b, c), t.s.computeIntegral(a, c)));
 }
 #define SN(N, J) template <class E> void sn_##N##_##J(E& e) { c_spline_node<N, J>(e); } VSYM_CONTRACT_P("spline/n=" #N "/node" #J, sn_##N##_##J, 100)
